@@ -39,6 +39,10 @@ WEIGHTS = [0.5, 1.0, 2.0, 1e-3, 1e3]
 # and the smallest denormal are drawn at every nesting level
 TINY_WEIGHTS = [0.0, 0.0, 1e-17, 1e-300, 5e-324]
 SPECIAL = ("torus", "mobius", "klein", "sphere")
+# car-like spaces (round 10): ("dubins", rho, sym, lo[2], hi[2]) ("rs", rho, lo[2], hi[2]) ("owen"|"vana"|"vanaowen", rho, maxPitch, lo, hi)
+CAR2 = ("dubins", "rs")
+CAR3 = ("owen", "vana", "vanaowen")
+CAR = CAR2 + CAR3
 
 
 def up(x):
@@ -80,6 +84,12 @@ def space_tokens(sp):
         return ["spacetime", fb(sp[1]), fb(sp[2])] + (["u"] if sp[3] is None else ["b", fb(sp[3][0]), fb(sp[3][1])]) + space_tokens(sp[4])
     if k == "empty":
         return ["empty"]
+    if k == "dubins":
+        return ["dubins", fb(sp[1]), "1" if sp[2] else "0"] + [fb(x) for x in sp[3]] + [fb(x) for x in sp[4]]
+    if k == "rs":
+        return ["rs", fb(sp[1])] + [fb(x) for x in sp[2]] + [fb(x) for x in sp[3]]
+    if k in CAR3:
+        return [k, fb(sp[1]), fb(sp[2]), fb(sp[3]), fb(sp[4])]
     if k == "cfw":                # CForestStateSpaceWrapper, top level only
         return ["cfw"] + space_tokens(sp[1])
     raise ValueError(k)
@@ -125,6 +135,12 @@ def parse_space(t, i=0):
         return ("cfw", s), i
     if k == "empty":
         return ("empty",), i
+    if k == "dubins":
+        return ("dubins", bf(t[i]), t[i + 1] != "0", [bf(x) for x in t[i + 2:i + 4]], [bf(x) for x in t[i + 4:i + 6]]), i + 6
+    if k == "rs":
+        return ("rs", bf(t[i]), [bf(x) for x in t[i + 1:i + 3]], [bf(x) for x in t[i + 3:i + 5]]), i + 5
+    if k in CAR3:
+        return (k, bf(t[i]), bf(t[i + 1]), bf(t[i + 2]), bf(t[i + 3])), i + 4
     if k == "spacetime":
         vmax, tw = bf(t[i]), bf(t[i + 1])
         if t[i + 2] == "u":
@@ -180,10 +196,30 @@ def leaves(sp, owner=None, w=1.0, out=None):
         leaves(sp[1], owner, w, out)
     elif k == "empty":
         leaf("rv", 0, [], [])
+    elif k in CAR:
+        lo, hi = car_box(sp)
+        out.append({"kind": "rv", "n": len(lo), "lo": lo, "hi": hi, "owner": owner or k, "w": w, "car": sp})
+        out.append({"kind": "so2", "n": 1, "lo": None, "hi": None, "owner": owner or k, "w": w * 0.5, "car": sp})
     elif k == "spacetime":
         leaves(sp[4], owner, w * (1 - sp[2]), out)
         leaf("time", 1, None if sp[3] is None else [sp[3][0]], None if sp[3] is None else [sp[3][1]], w * sp[2])
     return out
+
+
+def car_box(sp):
+    """bounds of the R^n part of a car-like space: x y | x y z | x y z pitch"""
+    k = sp[0]
+    if k == "dubins":
+        return list(sp[3]), list(sp[4])
+    if k == "rs":
+        return list(sp[2]), list(sp[3])
+    if k == "owen":
+        return [sp[3]] * 3, [sp[4]] * 3
+    return [sp[3]] * 3 + [-sp[2]], [sp[4]] * 3 + [sp[2]]
+
+
+def car_rho(sp):
+    return sp[1]
 
 
 def units(sp, out=None):
@@ -205,7 +241,7 @@ def units(sp, out=None):
         out += [("rv", 1, ("rv", sp[1], sp[2])), ("so2", 1, ("so2",))]
     elif k == "se3":
         out += [("rv", 1, ("rv", sp[1], sp[2])), ("so3", 1, ("so3",))]
-    elif k in SPECIAL:
+    elif k in SPECIAL or k in CAR:
         out.append((k, 2, sp))
     else:
         out.append((k, 1, sp))
@@ -244,6 +280,9 @@ def ext_of(sp):
         return math.inf
     if k == "empty":
         return 0.0
+    if k in CAR:
+        lo, hi = car_box(sp)
+        return ext_of(("rv", lo, hi)) + 0.5 * PI
     return ext_of(sp[1])
 
 
@@ -262,6 +301,10 @@ def kinds(sp, acc=None):
 
 def is_continuous(sp):
     return "disc" not in kinds(sp)
+
+
+def has_car(sp):
+    return bool(kinds(sp) & set(CAR))
 
 
 def is_geodesic(sp):
@@ -441,6 +484,104 @@ def special_seam_fix(r, sp_leaves, a, b, counts):
             counts["pair:klein:seam-forced"] = counts.get("pair:klein:seam-forced", 0) + 1
 
 
+def clip(v, lo, hi):
+    return min(max(v, lo), hi)
+
+
+CAR_CLASSES = ["default", "default", "near", "near", "same-pos", "ahead", "behind", "flat", "steep"]
+
+
+def car_fix(r, sp_leaves, a, b, counts):
+    """pose-pair classes of the car-like components (the R^n leaf carrying "car" and the yaw leaf after it): target within
+    4 rho, same position / different heading, straight ahead / behind, 3D: same altitude, steep climb"""
+    for i, lf in enumerate(sp_leaves):
+        if "car" not in lf or lf["kind"] != "rv":
+            continue
+        sp = lf["car"]
+        rho = car_rho(sp)
+        cls = r.choice(CAR_CLASSES)
+        lo, hi = lf["lo"], lf["hi"]
+        x, y, th = a[i][0], a[i][1], a[i + 1][0]
+        if cls == "near":
+            b[i][0] = clip(x + r.uniform(-4 * rho, 4 * rho), lo[0], hi[0])
+            b[i][1] = clip(y + r.uniform(-4 * rho, 4 * rho), lo[1], hi[1])
+        elif cls == "same-pos":
+            b[i][0], b[i][1] = x, y
+        elif cls in ("ahead", "behind"):
+            d = r.choice([r.uniform(0.0, 6 * rho), rho, 2 * rho, 1e-3 * rho]) * (1 if cls == "ahead" else -1)
+            nx, ny = x + d * math.cos(th), y + d * math.sin(th)
+            if lo[0] <= nx <= hi[0] and lo[1] <= ny <= hi[1]:
+                b[i][0], b[i][1], b[i + 1][0] = nx, ny, th
+            else:
+                cls = "default"
+        elif cls == "flat" and lf["n"] >= 3:
+            b[i][2] = a[i][2]
+        elif cls == "steep" and lf["n"] >= 3:
+            b[i][0] = clip(x + r.uniform(-rho, rho), lo[0], hi[0])
+            b[i][1] = clip(y + r.uniform(-rho, rho), lo[1], hi[1])
+        elif cls in ("flat", "steep"):
+            cls = "default"
+        counts["pair:%s:%s" % (sp[0], cls)] = counts.get("pair:%s:%s" % (sp[0], cls), 0) + 1
+
+
+WALK_PATTERNS = ["fwd", "bwd", "interior-first", "one-first", "zero-first", "neg-zero-first", "random", "ends-only", "interior-only"]
+
+
+def walk_ts(r, pat):
+    n = r.choice([2, 3, 4, 8])
+    if pat == "fwd":
+        return [j / n for j in range(n + 1)]
+    if pat == "bwd":
+        return [j / n for j in range(n, -1, -1)]
+    if pat == "interior-first":
+        return [r.unit(), 0.0, 1.0, r.unit(), 1.0, 0.0, r.choice(T_NONDYADIC)]
+    if pat == "one-first":
+        return [1.0, r.unit(), 0.0, r.choice(T_NONDYADIC), 1.0]
+    if pat == "zero-first":
+        return [0.0, r.unit(), 1.0, r.choice(T_NONDYADIC), 0.0]
+    if pat == "neg-zero-first":
+        return [-0.0, r.choice(T_NONDYADIC), r.unit()]
+    if pat == "ends-only":
+        return [0.0, 1.0, 1.0, 0.0]
+    if pat == "interior-only":
+        return [r.unit() for _ in range(3)]
+    return [r.choice([0.0, 1.0, r.unit(), r.unit(), dn(1.0), EPS_D, 5e-324, r.choice(T_NONDYADIC)]) for _ in range(r.range(1, 6))]
+
+
+def gen_walk_line(r, sp, counts):
+    """`walk` on a top-level car-like space: 1..3 legs on ONE cache (firstTime reset per leg, the path object kept):
+    first call at t = 0 / at t = 1 / at an interior t, then a sequence on the same cache; later legs re-use the cache
+    after the end points changed (new pair, the same pair swapped, the same start with a new target)"""
+    lv = leaves(sp)
+    legs = r.choice([1, 1, 2, 2, 3])
+    out = ["walk", str(legs)]
+    prev = None
+    for j in range(legs):
+        mode = r.choice(["rand", "adv", "rand", "wall"])
+        how = "fresh" if prev is None else r.choice(["fresh", "swapped", "same-start", "same-target"])
+        a, b = [], []
+        for lf in lv:
+            x, y = leaf_pair(r, lf, mode, {})
+            a.append(x)
+            b.append(y)
+        car_fix(r, lv, a, b, counts)
+        if how == "swapped":
+            a, b = [list(v) for v in prev[1]], [list(v) for v in prev[0]]
+        elif how == "same-start":
+            a = [list(v) for v in prev[0]]
+        elif how == "same-target":
+            b = [list(v) for v in prev[1]]
+        prev = (a, b)
+        pat = r.choice(WALK_PATTERNS)
+        ts = walk_ts(r, pat)
+        counts["walk-leg:%s" % pat] = counts.get("walk-leg:%s" % pat, 0) + 1
+        if j:
+            counts["walk-cache-reused:%s" % how] = counts.get("walk-cache-reused:%s" % how, 0) + 1
+        out += sum((tok(lf, v) for lf, v in zip(lv, a)), []) + sum((tok(lf, v) for lf, v in zip(lv, b)), [])
+        out += [str(len(ts))] + [fb(t) for t in ts]
+    return " ".join(out)
+
+
 T_FIXED = [0.0, -0.0, 1.0, 0.5, 0.75, EPS_D, 5e-324, dn(1.0)]
 # outside the property's quantifier: never judged by the oracle, but model and implementation must still agree
 # bit for bit and nothing may crash (not generated for spaces with a discrete component: (int)floor(NaN) is UB)
@@ -475,6 +616,7 @@ def gen_pair_lines(r, sp, mode, counts, n_rand_t, n_reparam):
         b.append(y)
     if mode != "coincident":
         special_seam_fix(r, lv, a, b, counts)
+        car_fix(r, lv, a, b, counts)
     at = " ".join(sum((tok(lf, v) for lf, v in zip(lv, a)), []))
     bt = " ".join(sum((tok(lf, v) for lf, v in zip(lv, b)), []))
     sep = " " if at else ""
@@ -521,7 +663,11 @@ def rv_space(r, n=None):
 
 
 def leaf_space(r):
-    c = r.below(15)
+    c = r.below(17)
+    if c == 15:
+        return ("dubins", r.choice([1.0, 0.25, 3.7]), r.chance(1, 2), [-10.0, -10.0], [10.0, 10.0])
+    if c == 16:
+        return ("rs", r.choice([1.0, 2.5]), [-10.0, -5.0], [10.0, 5.0])
     if c == 13:
         return ("spacetime", r.choice([0.5, 1.0, 3.0]), r.choice([0.0, 0.25, 0.5, 1.0]), r.choice([None, (0.0, r.uniform(1, 20))]),
                 r.choice([("so2",), rv_space(r, 2), ("se2", [-1.0, -1.0], [1.0, 1.0])]))
@@ -659,6 +805,30 @@ def shipped_spaces():
         ("cmp", [(1.0, ("cmp", [(0.0, ("cmp", [(1.0, ("so2",)), (0.0, ("so3",))])), (2.0, ("time", (0.0, 1.0)))])),
                  (5e-324, ("rv", [-1.0, -1.0], [1.0, 1.0])), (1e-300, ("so2",))]),
         ("wrap", ("cmp", [(0.0, ("se2", [-1.0, -1.0], [1.0, 1.0])), (1e-17, ("torus", 2.0, 0.5)), (0.0, ("mobius", 1.0, 1.0))])),
+    ] + car_spaces()
+
+
+def car_spaces():
+    """the car-like spaces (their sanityChecks() switch STATESPACE_INTERPOLATION off) and wrappers / compounds of them"""
+    box = ([-10.0, -10.0], [10.0, 10.0])
+    return [
+        ("dubins", 1.0, False) + box,
+        ("dubins", 1.0, True) + box,
+        ("dubins", 0.25, False, [-3.0, -2.0], [3.0, 2.0]),
+        ("dubins", 3.7, True, [-20.0, -20.0], [20.0, 20.0]),
+        ("rs", 1.0) + box,
+        ("rs", 2.5, [-5.0, -5.0], [5.0, 5.0]),
+        ("owen", 1.0, 0.5, -10.0, 10.0),
+        ("owen", 2.5, 0.7, -20.0, 20.0),
+        ("vana", 1.0, 0.5, -10.0, 10.0),
+        ("vanaowen", 1.0, 0.5, -10.0, 10.0),
+        ("wrap", ("dubins", 1.0, False) + box),
+        ("cfw", ("dubins", 1.0, True) + box),
+        ("cmp", [(1.0, ("dubins", 2.0, True) + box), (0.0, ("wrap", ("rs", 1.0) + box))]),
+        ("cmp", [(1.0, ("so2",)), (2.0, ("wrap", ("rs", 1.0) + box)), (0.5, ("rv", [-1.0], [1.0])), (1e-17, ("dubins", 1.0, False) + box)]),
+        ("cmp", [(1.0, ("owen", 1.0, 0.5, -10.0, 10.0)), (1.0, ("so2",))]),
+        ("wrap", ("vana", 1.0, 0.5, -10.0, 10.0)),
+        ("cmp", [(1.0, ("vanaowen", 1.0, 0.5, -10.0, 10.0)), (0.0, ("disc", 0, 3))]),
     ]
 
 
@@ -682,6 +852,8 @@ def gen_scripts(ck, tier):
                 counts["space-kind:" + kd] = counts.get("space-kind:" + kd, 0) + 1
             counts["space-depth:%d" % depth(sp)] = counts.get("space-depth:%d" % depth(sp), 0) + 1
             np_ = n_pairs if tag == "shipped" else max(3, n_pairs // 2)
+            if kinds(sp) & set(CAR3):
+                np_ = max(3, np_ // 2)          # every interpolate of a 3D space runs its path search
             mutate_at = np_ // 2 if r.chance(1, 3) else -1
             for p in range(np_):
                 if p == mutate_at:
@@ -691,6 +863,9 @@ def gen_scripts(ck, tier):
                 mode = ["adv", "rand", "wall", "adv", "rand", "coincident", "adv", "wall"][p % 8]
                 counts["pair-mode:" + mode] = counts.get("pair-mode:" + mode, 0) + 1
                 lines += gen_pair_lines(r, sp, mode, counts, n_rand_t, n_rep if is_continuous(sp) else 1)
+                if sp[0] in CAR:
+                    for _ in range(3 if sp[0] in CAR2 else 2):
+                        lines.append(gen_walk_line(r, sp, counts))
             if tag == "shipped":
                 lines.append("sanity")
         scripts.append(("gen%d" % (c // chunk), lines, counts))
@@ -904,6 +1079,164 @@ def so2_class(a, b, rv):
     return "%s-branch %s" % (branch, where)
 
 
+# ---------------------------------------------------------------------------------- car-like spaces (round 10)
+BY_DESIGN = ("car-like curve leaves the position box (by design: Dubins / Reeds-Shepp / 3D Dubins curves between in-bounds poses swing "
+             "outside it; the motion validators test satisfiesBounds of every interpolated state) - counted, not judged")
+PITCH_SLACK = 1e-5          # the vertical profile is a Dubins word in the (arc length, altitude) plane: DUBINS_EPS-scale snaps
+
+
+def gap_bin(gap, tol):
+    return "0" if gap == 0 else "<= 1e-12" if gap <= 1e-12 else "<= 1e-7" if gap <= 1e-7 else "<= tolerance" if gap <= tol else "> tolerance"
+
+
+SYM_SWITCH = ("symmetric Dubins: the remainder is re-planned in the other direction (the shorter of dubins(s3,to) and the reversed "
+              "dubins(to,s3) is not the direction the original motion used)")
+RS_TIE = "Reeds-Shepp: the path re-planned from the point at s is a different word of the same length (tie between optimal words)"
+RS_F67 = ("Reeds-Shepp: the path re-planned from the point at s is longer than the remainder of the motion, which is a straight "
+          "segment (degenerate word rejected by the ZERO threshold: C14's F67)")
+
+
+def car_reparam_class(usp, sub, s3t, tot, clen, s):
+    """why a car-like component's continued interpolation left the original motion, from the FORWARD path lengths the harness
+    printed for (from,to) (to,from) (s3,to) (to,s3) — independent of the interpolation under test"""
+    if clen == "-":
+        return "distance beyond tolerance"
+    L = [bf(x) for x in clen.split(",")]
+    if usp[0] == "dubins":
+        if usp[2] and (L[1] < L[0]) != (L[3] < L[2]):
+            return SYM_SWITCH
+        return "distance beyond tolerance"
+    if usp[0] == "rs":
+        rem = (1.0 - s) * L[0]
+        if abs(L[2] - rem) <= 1e-9 * (1.0 + L[0]):
+            return RS_TIE
+        if L[2] > rem:
+            (x, y), th = vals(sub[0], s3t[:2]), bf(s3t[2])
+            (x2, y2), th2 = vals(sub[0], tot[:2]), bf(tot[2])
+            dx, dy = x2 - x, y2 - y
+            dth = abs(th2 - th)
+            if abs(dx * math.sin(th) - dy * math.cos(th)) <= 1e-9 * (1.0 + math.hypot(dx, dy)) and min(dth, abs(2 * PI - dth)) <= 1e-9:
+                return RS_F67
+    return "distance beyond tolerance"
+
+
+def car_by_design(lf, v):
+    """an out-of-bounds R^n leaf of a car-like space whose only offence is the POSITION (x, y, z): not judged.
+    The yaw (SO2 leaf), a NaN, a sentinel and a pitch outside [-maxPitch, maxPitch] by more than rounding are."""
+    if "car" not in lf or lf["kind"] != "rv" or any(math.isnan(x) for x in v) or has_sentinel(lf, v):
+        return False
+    if lf["n"] == 4 and not (lf["lo"][3] - PITCH_SLACK <= v[3] <= lf["hi"][3] + PITCH_SLACK):
+        return False
+    return True
+
+
+def pose_gap(lv, xt, yt):
+    """closeness of two printed states on their values: max |difference| over the leaves, angles wrapped (a car-like space's own
+    distance is not a closeness measure: a pose a hair behind the other is a full circle away); per leaf index"""
+    gaps = []
+    for lf, x, y in zip(lv, split_state(lv, xt), split_state(lv, yt)):
+        if lf["kind"] == "disc":
+            gaps.append(0.0 if x == y else math.inf)
+            continue
+        g = 0.0
+        for j, (p_, q_) in enumerate(zip(vals(lf, x), vals(lf, y))):
+            d_ = abs(p_ - q_)
+            if lf["kind"] == "so2" or (lf.get("car") and lf["n"] == 4 and j == 3):
+                d_ = min(d_, abs(2 * PI - d_))
+            g = max(g, d_) if d_ == d_ else math.inf
+        gaps.append(g)
+    return gaps
+
+
+def car_tol(sp):
+    """what separates `the same point up to the solvers' own tolerances` from another point: DUBINS_EPS / RS_EPS = 1e-6 scale
+    snaps in mod2pi and the end-pose assertions of the word solvers (position rho * (1 + L) * 3e-6, heading 2.5e-6; C14)"""
+    return 4e-6 * (ext_of(sp) + 10.0 * car_rho(sp))
+
+
+def parse_walk(sp, line):
+    lv = leaves(sp)
+    n = sum(lf["n"] for lf in lv)
+    t = line.split()
+    legs, i, out = int(t[1]), 2, []
+    for _ in range(legs):
+        a = [vals(lf, x) for lf, x in zip(lv, split_state(lv, t[i:i + n]))]
+        b = [vals(lf, x) for lf, x in zip(lv, split_state(lv, t[i + n:i + 2 * n]))]
+        k = int(t[i + 2 * n])
+        ts = [bf(x) for x in t[i + 2 * n + 1:i + 2 * n + 1 + k]]
+        out.append((a, b, ts, t[i:i + n], t[i + n:i + 2 * n]))
+        i += 2 * n + 1 + k
+    return lv, out
+
+
+def split_states(toks):
+    out, cur = [], []
+    for x in toks:
+        if x == "/":
+            out.append(cur)
+            cur = []
+        else:
+            cur.append(x)
+    return out + [cur] if (cur or out) else []
+
+
+def oracle_walk(sp, line, out):
+    """the cached overloads, judged against the 4-argument interpolate on fresh states (printed by the harness as m<j>):
+    an interior point must be THE point interpolate(from, to, t) gives, bit for bit, whatever was asked of the cache before
+    (first call at an end point, cache re-used after the end points changed); an end point asked of a warm cache is integrated
+    along the stored path and must reach the end point up to the solvers' tolerance; aliasing the output with either input
+    changes nothing; yaw stays in [-pi, pi)"""
+    lv, legs = parse_walk(sp, line)
+    f = fields(out)
+    kind = sp[0]
+    fails = []
+    tol = car_tol(sp)
+    for j, (a, b, ts, at, bt) in enumerate(legs):
+        if f.get("np%d" % j) == ["1"]:
+            fails.append({"clause": "count", "class": "walk leg without a path (getPath fails: C14's F126 / F145; Vana: no helix) - not judged"})
+            continue
+        c, m, cf, ct = (split_states(f.get(k_ + str(j), [])) for k_ in ("c", "m", "cf", "ct"))
+        if not (len(c) == len(m) == len(cf) == len(ct) == len(ts)):
+            fails.append({"clause": "protocol", "culprit": kind, "class": "walk output malformed", "what": "leg %d: %d states for %d calls" % (j, len(c), len(ts))})
+            continue
+        first = "first call of the leg at t=%s" % ("0" if ts[0] <= 0 else "1" if ts[0] >= 1 else "interior")
+        hist = first + (", cache re-used after the end points changed (firstTime reset)" if j else ", fresh cache")
+        for q, t in enumerate(ts):
+            if not 0.0 <= t <= 1.0:
+                continue
+            if any(x != x for lf, x_ in zip(lv, split_state(lv, c[q])) for x in vals(lf, x_)):
+                fails.append({"clause": "nan", "culprit": kind, "class": "NaN in result (cached overload)", "what": "cached interpolate produced NaN at t=%r" % t})
+                break
+            for other, nm in ((cf, "output==from"), (ct, "output==to")):
+                if other[q] != c[q]:
+                    fails.append({"clause": "alias", "culprit": kind, "class": "cached overload, " + nm,
+                                  "what": "cached interpolate (call %d of leg %d, t=%r) with %s differs from the run with a distinct output" % (q, j, t, nm)})
+            for lf, x in zip(lv, split_state(lv, c[q])):
+                v = vals(lf, x)
+                if has_sentinel(lf, v):
+                    fails.append({"clause": "bounds", "culprit": kind, "class": "component of the output never written (the harness's sentinel is still there)",
+                                  "what": "cached interpolate, call %d of leg %d, t=%r" % (q, j, t)})
+                elif not leaf_in_bounds(lf, v) and not car_by_design(lf, v):
+                    fails.append({"clause": "bounds", "culprit": kind, "class": "cached overload: yaw / pitch out of range",
+                                  "what": "cached interpolate, call %d of leg %d, t=%r: %r" % (q, j, t, v)})
+                elif not leaf_in_bounds(lf, v):
+                    fails.append({"clause": "count", "class": BY_DESIGN})
+            if c[q] == m[q]:
+                continue
+            gap = max(pose_gap(lv, c[q], m[q]))
+            if 0.0 < t < 1.0:
+                fails.append({"clause": "walk", "culprit": kind, "class": "interior point of the cached overload is not interpolate(from,to,t): " + hist,
+                              "what": "call %d of leg %d (t sequence %r): cached overload is %.6g away from the 4-argument interpolate at t=%r"
+                                      % (q, j, ts[:q + 1], gap, t)})
+                break
+            fails.append({"clause": "count", "class": "walk: end point integrated along the warm cache, gap " + gap_bin(gap, tol)})
+            if not gap <= tol:
+                fails.append({"clause": "walk-endpoint", "culprit": kind, "class": "end point asked of a warm cache misses the end point: " + hist,
+                              "what": "call %d of leg %d: cached overload at t=%r is %.6g away from the end point (tolerance %.3g)" % (q, j, t, gap, tol)})
+                break
+    return fails
+
+
 # ---------------------------------------------------------------------------------- spec oracle
 def oracle_line(sp, line, out):
     """the property evaluated on one implementation output line.
@@ -914,11 +1247,14 @@ def oracle_line(sp, line, out):
         return [{"clause": "generator", "culprit": sp[0], "class": "input not in bounds", "what": "generated state fails satisfiesBounds"}]
     if out == "bad-op" or out == "<missing>":
         return [{"clause": "protocol", "culprit": sp[0], "class": out, "what": "no result for a well-formed line (crash, abort or sanitizer report)"}]
+    if line.startswith("walk "):
+        return oracle_walk(sp, line, out)
     op, lv, a, b, par = parse_op(sp, line)
     if not all(0.0 <= p_ <= 1.0 for p_ in par):
         return []      # t outside [0,1] / NaN: outside the property's quantifier (correspondence and sanitizers only)
     f = fields(out)
     fails = []
+    cnp = f.get("cnp", [])
     ext = ext_of(sp)
     slack = EPS_F * max(1.0, ext if math.isfinite(ext) else 1.0)
     has3 = [lf for lf in lv if lf["kind"] == "so3"]
@@ -933,8 +1269,13 @@ def oracle_line(sp, line, out):
 
     def bounds_record(rt, what, frm, tcall):
         """frm = leaf values of the `from` state and tcall the parameter of the interpolate call that produced rt"""
-        own, i = attribute(rt, lambda lf, v, i: leaf_in_bounds(lf, v))
+        own, i = attribute(rt, lambda lf, v, i: leaf_in_bounds(lf, v) or car_by_design(lf, v))
+        if i is None and not any(has_sentinel(lf, vals(lf, x)) for lf, x in zip(lv, split_state(lv, rt))) and \
+                any(car_by_design(lf, vals(lf, x)) and not leaf_in_bounds(lf, vals(lf, x)) for lf, x in zip(lv, split_state(lv, rt))):
+            return {"clause": "count", "class": BY_DESIGN}
         cls = "out of bounds"
+        if i is not None and "car" in lv[i]:
+            cls = "yaw out of [-pi, pi)" if lv[i]["kind"] == "so2" else "pitch out of range / NaN"
         if i is not None:
             v = vals(lv[i], split_state(lv, rt)[i])
             if lv[i]["kind"] == "so2":
@@ -987,7 +1328,7 @@ def oracle_line(sp, line, out):
         csb = f.get("csb", [])
         if f["sb"] != ["1"] or "0" in csb:
             rec = bounds_record(r, "interpolate(from,to,t) at t=%r does not satisfy the space's bounds" % t, a, t)
-            if rec["culprit"] == "unknown" and "0" in csb:
+            if rec["clause"] != "count" and rec["culprit"] == "unknown" and "0" in csb:
                 rec["culprit"] = un[csb.index("0")][0]
             fails.append(rec)
         # discrete components: the point at t is the linear blend rounded to an integer, i.e. within 1 of
@@ -1021,6 +1362,10 @@ def oracle_line(sp, line, out):
         # of bounds is already reported above
         for ui, (uk, _n, usp) in enumerate(un):
             if ui >= len(csb) or csb[ui] != "1":
+                continue
+            if ui < len(cnp) and cnp[ui] == "1":
+                if t in (0.0, 1.0):
+                    fails.append({"clause": "count", "class": "3D space without a path for the pair (getPath fails: C14's F126 / F145; Vana: no helix): interpolate stays at from - not judged"})
                 continue
             cslack = EPS_F * max(1.0, ext_of(usp))
             li0 = sum(n_ for _, n_, _ in un[:ui])
@@ -1087,14 +1432,42 @@ def oracle_line(sp, line, out):
             fails.append({"clause": "alias", "culprit": sp[0], "class": "output==from (continued interpolation)",
                           "what": "interpolate(s3,to,u,s3) differs from the run with a distinct output"})
         oob = any(f[flag] != ["1"] for flag in ("sbs3", "sbr", "sbd"))
-        if is_continuous(sp) and f["d"][0] != "-" and not (oob and f.get("enf") == ["1"]):
-            d = bf(f["d"][0])
+        car = has_car(sp)
+        if car and f["sbs3"] != ["1"]:
+            # the intermediate point left the position box (by design), so the second leg would start from an out-of-bounds
+            # state: outside the property's quantifier
+            fails.append({"clause": "count", "class": "re-parameterisation not judged: the point at s is outside the position box of a car-like space"})
+        elif is_continuous(sp) and (f["d"][0] != "-" or car) and not (oob and f.get("enf") == ["1"]):
+            d = 0.0 if car else bf(f["d"][0])      # a car-like distance is not a closeness measure: per component, on the values
             un = units(sp)
             bad_units = []
-            for ui, (uk, _n, usp) in enumerate(un):
+            li_ = 0
+            for ui, (uk, n_, usp) in enumerate(un):
                 cd = f["cd"][ui]
-                if cd != "-" and not bf(cd) <= EPS_F * max(1.0, ext_of(usp)):
+                if uk in CAR:
+                    if ui < len(cnp) and cnp[ui] == "1":
+                        fails.append({"clause": "count", "class": "re-parameterisation not judged: 3D space without a path"})
+                    else:
+                        sub = lv[li_:li_ + n_]
+                        off = sum(lf_["n"] for lf_ in lv[:li_])
+                        wid = sum(lf_["n"] for lf_ in sub)
+                        gap = max(pose_gap(sub, f["r"][off:off + wid], f["direct"][off:off + wid]))
+                        fails.append({"clause": "count", "class": "reparam gap of a %s component %s" % (uk, gap_bin(gap, car_tol(usp)))})
+                        if not gap <= car_tol(usp):
+                            if uk in CAR2:
+                                cl_ = f.get("clen", [])
+                                fails.append({"clause": "reparam", "culprit": uk,
+                                              "class": car_reparam_class(usp, sub, f["s3"][off:off + wid], sum((tok(lf_, v_) for lf_, v_ in zip(sub, b[li_:li_ + n_])), []),
+                                                                         cl_[ui] if ui < len(cl_) else "-", s),
+                                              "what": "interpolate(interpolate(a,b,s),b,u) is %.6g away from interpolate(a,b,s+(1-s)u) in the %s component "
+                                                      "(s=%r,u=%r; closeness on the pose values)" % (gap, uk, s, u)})
+                            else:
+                                # Owen / Vana / VanaOwen paths are not geodesics of anything: re-planning from the point at s re-runs a
+                                # root / radius search and returns another curve (C14's F128 for Vana): counted, not judged
+                                fails.append({"clause": "count", "class": "re-parameterisation of a 3D Dubins space deviates (heuristic paths, re-planned from the point at s) - not judged"})
+                elif cd != "-" and not bf(cd) <= EPS_F * max(1.0, ext_of(usp)):
                     bad_units.append((uk, bf(cd)))
+                li_ += n_
             if "spacetime" in kinds(sp):
                 d = 0.0     # SpaceTimeStateSpace::distance is infinite for pairs it calls unreachable: per component only
             if bad_units or not d <= slack:
@@ -1131,8 +1504,9 @@ def oracle_line(sp, line, out):
     return fails
 
 
-def oracle(script, impl):
-    """(script, impl output) -> list of (line index in script, record)"""
+def oracle(script, impl, notes=None):
+    """(script, impl output) -> list of (line index in script, record); records of clause `count` (things looked at but not
+    judged, with the reason) go to the dict `notes` instead"""
     sp = None
     res = []
     for i, line in enumerate(script[1:]):
@@ -1143,6 +1517,10 @@ def oracle(script, impl):
                 res.append((i + 1, {"clause": "protocol", "culprit": sp[0], "class": out, "what": "space not constructed"}))
             continue
         for rec in oracle_line(sp, line, out):
+            if rec["clause"] == "count":
+                if notes is not None:
+                    notes[rec["class"]] = notes.get(rec["class"], 0) + 1
+                continue
             res.append((i + 1, rec))
         if out == "<missing>":
             break
@@ -1191,6 +1569,15 @@ def correspondence(script, impl, model):
         if line == "sanity":
             continue
         fo, fm = fields(o), fields(m)
+        if m == "nomodel":
+            res.append((i + 1, "nomodel", line.split()[0], False))
+            continue
+        if line.startswith("walk ") and fm and fo and o not in ("bad-op", "oob-input", "<missing>") and m not in ("bad-op", "oob-input", "<missing>"):
+            for key in fm:
+                if fo.get(key) != fm[key]:
+                    res.append((i + 1, "diff", "walk", False))
+                    break
+            continue
         if not fm or not fo or (o in ("bad-op", "oob-input", "<missing>")) or (m in ("bad-op", "oob-input", "<missing>")):
             if o != m:
                 res.append((i + 1, "diff", "line", False))
@@ -1227,8 +1614,11 @@ def branch_counts(ck, script):
         if line == "sanity":
             ck.count("op:sanity")
             continue
+        if line.startswith("walk "):
+            ck.count("op:walk:" + sp[0])
+            continue
         op, lv, a, b, par = parse_op(sp, line)
-        ck.count("op:" + op)
+        ck.count("op:" + op + (":car-like" if has_car(sp) else ""))
         if op != "interp":
             continue
         t = par[0]
@@ -1321,6 +1711,9 @@ def run(ck):
                 continue
             if line == "sanity":
                 continue
+            if line.startswith("walk "):
+                ck.case((sp, line), True)
+                continue
             op, lv, a, b, par = parse_op(parse_space(sp.split()[1:])[0], line)
             ck.case((sp, line), a != b and all(0.0 < p < 1.0 for p in par))
         if tag.startswith("gen") and len(ck.samples) < 4:
@@ -1328,7 +1721,10 @@ def run(ck):
         for ln_, o_ in zip(script[1:], impl):
             if ln_ == "sanity":
                 ck.count("library-sanityChecks:" + " ".join(o_.split()[1:6]))
-        fails = [] if tag.startswith("corpus:malformed") else oracle(script, impl)
+        notes = {}
+        fails = [] if tag.startswith("corpus:malformed") else oracle(script, impl, notes)
+        for k, v in notes.items():
+            ck.count("not-judged:" + k, v)
         if rc != 0 and not any(r["clause"] == "protocol" for _, r in fails):
             fails.append((min(len(impl) + 1, len(script) - 1), {"clause": "protocol", "culprit": "harness", "class": "exit code %s" % rc,
                                                                 "what": "harness exited with code %s: %s" % (rc, err[-300:])}))
@@ -1347,6 +1743,9 @@ def run(ck):
                 continue
             if kind == "pre159":
                 ck.count("implementation-without-the-proposed-F159-repair (accepted while ACCEPT_PRE_F159)")
+                continue
+            if kind == "nomodel":
+                ck.count("oracle-only (space not covered by the Lean model):" + key)
                 continue
             if idx in bad_lines:
                 ck.count("disagreement-on-a-line-the-oracle-rejects" + (":impl-matches-a-former-SO2-clause (F4/F61 fix lost)" if is_old else ""))
